@@ -189,8 +189,33 @@ class C05(LineCheck):
             elif r < 0.85:
                 toks.append("u%d" % rng.randint(1, nids))
             else:
-                clock = rng.choice([clock, clock + rng.randint(0, max(1, espan // 3)), rng.randint(0, espan)])
+                clock = min(rng.choice([clock, clock + rng.randint(0, max(1, espan // 3)), rng.randint(0, espan)]), 4 * 10 ** 18)
                 toks.append("x%d" % clock)
+        return " ".join(toks)
+
+    def far_apart(self, rng):
+        """near expiries mixed with expiries 2^31 s, 2^32 s (and multiples) away: "arbitrary expiry values" -- a comparison
+        that narrows a tv_sec difference goes wrong exactly here"""
+        NS = 10 ** 9
+        # (values stay below 2^62 ns: the model drivers read them as OCaml ints)
+        far = [(2 ** 31 - 1) * NS, 2 ** 31 * NS, (2 ** 31 + 1) * NS, 2 ** 32 * NS, (2 ** 32 + 1) * NS, (2 ** 32 - 1) * NS,
+               100 * 365 * 86400 * NS, 3 * 2 ** 30 * NS]
+        toks = []
+        n = rng.randint(4, 40)
+        farid = set(rng.sample(range(1, n + 1), rng.randint(1, 3)))
+        order = list(range(1, n + 1))
+        rng.shuffle(order)
+        for t in order:
+            e = rng.choice(far) + rng.randint(0, 3) if t in farid else rng.randint(1, 200) * 1000000
+            toks.append("r%d@%d" % (t, e))
+        for _ in range(rng.randint(0, 6)):
+            t = rng.randint(1, n)
+            toks.append(rng.choice(["u%d" % t, "r%d@%d" % (t, rng.choice(far + [rng.randint(1, 200) * 1000000]))]))
+        clock = 0
+        for _ in range(rng.randint(2, 6)):
+            clock += rng.randint(1, 120) * 1000000
+            toks.append("x%d" % clock)
+        toks.append("x%d" % rng.choice(far))
         return " ".join(toks)
 
     def ramp(self, rng, top, quiet=True):
@@ -309,7 +334,9 @@ class C05(LineCheck):
         n = 600 if ctx.tier == "quick" else 8000
         for i in range(n):
             nids = rng.choice([3, 6, 12, 30, 80])
-            cases.append(self.history(rng, nids, rng.choice([15, 40, 120]), rng.choice([3, 10, 100, 10 ** 12]), rng.random() < 0.5))
+            cases.append(self.history(rng, nids, rng.choice([15, 40, 120]), rng.choice([3, 10, 100, 10 ** 12, 3 * 10 ** 18]), rng.random() < 0.5))
+            if rng.random() < 0.15:
+                cases.append(self.far_apart(rng))
         self.n_hist = n
         # boundary ramps (full dumps for the 128 boundary, quiet for 16384)
         ramps = [(140, False), (300, False), (16400, True)] if ctx.tier == "quick" else \
